@@ -59,3 +59,9 @@ Proof. exact no_accumulation. Qed.
 Theorem C15_old_loop_spins : forall picks,
   let s := iters false picks (mk 0 false 0 true) in st s = Running /\ consumed s = 0.
 Proof. exact spin_after_drop_refuted. Qed.
+
+(* quiet when idle, in the code: every turn of the reloader's loop starts by blocking on
+   `select.ready()` and nothing in the thread waits with a deadline, sleeps or polls (the model's
+   [idle_blocks] is about exactly this wait) *)
+Theorem C15_code_reloader_blocks_until_there_is_work : waits_without_deadline hot_reloading_thread = true.
+Proof. exact reloader_blocks_until_there_is_work. Qed.
